@@ -70,6 +70,8 @@ type Case struct {
 	Stale   gen.BodySpec `json:"stale"`   // earlier content of the same id (same length as body), source of stale shards
 	Foreign gen.BodySpec `json:"foreign"` // content of another part, source of foreign shards
 	Sets    []Set        `json:"sets"`
+	// Scan: instead of fault sets on one part, several damaged parts and complete heal-scan passes (c17_scan_test.go).
+	Scan *Scan `json:"scan,omitempty"`
 }
 
 func pid(i int) partstore.PartId {
@@ -748,6 +750,9 @@ func firstDiff(a, b []byte) int {
 }
 
 func run(env *ev.Env, c Case) (o ev.Outcome) {
+	if c.Scan != nil {
+		return runScan(env, c)
+	}
 	if c.D < 1 || c.P < 1 || c.D > 4 || c.P > 3 {
 		o.Discard = true
 		return
@@ -1035,6 +1040,10 @@ func genSize(t *rapid.T, d int, maxStripes int) int {
 func genCase(t *rapid.T, env *ev.Env) Case {
 	c := Case{D: rapid.IntRange(1, 3).Draw(t, "d"), P: rapid.IntRange(1, 2).Draw(t, "p")}
 	c.Base = rapid.SampledFrom([]string{"mem", "mem", "fs"}).Draw(t, "base")
+	if rapid.IntRange(0, 5).Draw(t, "scan") == 3 {
+		c.Scan = genScan(t, c.D, c.P)
+		return c
+	}
 	maxStripes := 4
 	nSets := 10
 	if env.Thorough() {
